@@ -41,6 +41,11 @@ type Case struct {
 	Generate bool `json:"generate_another_code,omitempty"`
 	// Persistent: hybrid with a persistent tier (EnablePersistent); mapping records are then counted in every tier.
 	Persistent bool `json:"persistent,omitempty"`
+	// PersFail k>0 (persistent worlds): the k-th write of a mapping record to the PERSISTENT tier fails.
+	PersFail int `json:"pers_fail,omitempty"`
+	// StaleClaim: a claim marker left behind by a holder that never released it (claimed long ago) already
+	// sits next to the code when the program starts
+	StaleClaim bool `json:"stale_claim,omitempty"`
 	// CodeTTL: the code's activation TTL in seconds (0 = one hour)
 	CodeTTL   int    `json:"code_ttl_s,omitempty"`
 	Cluster   bool   `json:"cluster"`     // two nodes, each with its own hybrid store + node-local cache over one shared cache tier
@@ -231,6 +236,10 @@ func runConcurrent(c Case, choose func(int, []string) int) outcome {
 		o.key, o.detail = "C06/harness/setup-failed", err.Error()
 		return o
 	}
+	if c.StaleClaim {
+		marker := fmt.Sprintf(`{"code_id":%q,"claimed_at":%d}`, code.ID, time.Now().Add(-10*time.Minute).UnixNano())
+		w.cache.Raw().Set("tunnox:runtime:conncode:claim:"+code.Code, marker, time.Hour)
+	}
 	pre := map[string]bool{}
 	if c.QuotaFull >= 0 {
 		m, err := w.nodes[0].pms.CreatePortMapping(&models.PortMapping{ListenClientID: listenBase + int64(c.QuotaFull), TargetClientID: otherTarget,
@@ -271,6 +280,10 @@ func runConcurrent(c Case, choose func(int, []string) int) outcome {
 			}
 			return write && strings.HasPrefix(s.Key, "tunnox:runtime:conncode:")
 		}
+		c.FailAt = -1
+	}
+	if c.PersFail > 0 && w.persF != nil {
+		w.persF.arm(c.PersFail)
 		c.FailAt = -1
 	}
 	w.g.Activate()
@@ -394,6 +407,9 @@ func runConcurrent(c Case, choose func(int, []string) int) outcome {
 			o.failedOp = "tier:" + st.Op + ":" + strings.TrimPrefix(normKey(st.Key), "tunnox:")
 		}
 	}
+	if w.persF != nil && w.persF.Fired != "" {
+		o.failedOp = "tier:pers.Set:" + strings.TrimPrefix(normKey(w.persF.Fired), "tunnox:")
+	}
 	if w.store.Failed != "" {
 		// between "mapping record stored" and "code record (both copies) updated"?
 		seenPM, idx := false, -1
@@ -429,6 +445,9 @@ func runConcurrent(c Case, choose func(int, []string) int) outcome {
 	}
 	if c.Persistent {
 		prog += "/persistent"
+	}
+	if c.StaleClaim {
+		prog += "/stale-claim"
 	}
 	if c.CodeTTL > 0 {
 		prog += fmt.Sprintf("/ttl=%ds", c.CodeTTL)
@@ -641,7 +660,7 @@ func recStr(c *models.TunnelConnectionCode) string {
 }
 
 func sigOf(c Case, o outcome) string {
-	return fmt.Sprintf("%v%d|%d|%v%v%v|%v|%v|%v|%s|%d|%s|%s|%s", c.Persistent, c.CodeTTL, c.NAct, c.Revoke, c.Revoke2, c.Generate, c.SameClient, c.SecondNode, c.Cluster, c.Gran, c.QuotaFull, o.failedOp, c.ExpirePoint, normSteps(o.log))
+	return fmt.Sprintf("%v%d%v%d|%d|%v%v%v|%v|%v|%v|%s|%d|%s|%s|%s", c.Persistent, c.PersFail, c.StaleClaim, c.CodeTTL, c.NAct, c.Revoke, c.Revoke2, c.Generate, c.SameClient, c.SecondNode, c.Cluster, c.Gran, c.QuotaFull, o.failedOp, c.ExpirePoint, normSteps(o.log))
 }
 
 func report(t vkit.TB, c Case, o outcome) {
@@ -778,6 +797,7 @@ func spaces() []space {
 	r2 := func(c Case) Case { c.Revoke2 = true; return c }
 	gn := func(c Case) Case { c.Generate = true; return c }
 	pz := func(c Case) Case { c.Persistent = true; return c }
+	st := func(c Case) Case { c.StaleClaim = true; return c }
 	tl := func(sec int, c Case) Case { c.CodeTTL = sec; return c }
 	return []space{
 		// code-record granularity: 3 scheduling points per task
@@ -794,6 +814,11 @@ func spaces() []space {
 		{tl(7200, cl(mk(2, false, false, "code", -1))), 1, 1 << 30, false},
 		{tl(7200, mk(1, true, false, "code", -1)), 1, 1 << 30, false},
 		{tl(86400, sc(mk(2, true, false, "code", -1))), 2, 1 << 30, false},
+		// a stale claim marker left by a vanished holder is already there
+		{st(mk(2, false, false, "code", -1)), 1, 1 << 30, false},
+		{st(cl(mk(2, false, false, "code", -1))), 1, 1 << 30, false},
+		{st(mk(1, true, false, "code", -1)), 1, 1 << 30, false},
+		{st(sc(mk(2, true, false, "code", -1))), 2, 1 << 30, false},
 		// hybrid with a persistent tier
 		{pz(mk(2, false, false, "code", -1)), 1, 1 << 30, false},
 		{pz(cl(mk(2, true, false, "code", -1))), 2, 1 << 30, false},
@@ -852,6 +877,9 @@ func TestExhaustive(t *testing.T) {
 		}
 		if s.c.Persistent {
 			name += "/persistent"
+		}
+		if s.c.StaleClaim {
+			name += "/stale-claim"
 		}
 		if s.c.CodeTTL > 0 {
 			name += fmt.Sprintf("/ttl=%ds", s.c.CodeTTL)
@@ -925,6 +953,33 @@ func TestFaultEnumeration(t *testing.T) {
 		}
 		vkit.Exhaustive(fmt.Sprintf("single-write-fault x schedules:%dA/rev=%v/2nodes=%v/cluster=%v/gran=%s/tier-level=%v/persistent=%v", base.NAct, base.Revoke, base.SecondNode, base.Cluster, base.Gran, fb.tier, base.Persistent), complete)
 	}
+	// the persistent-tier write of the mapping record fails (k-th such write) x every schedule
+	for _, base := range []Case{
+		{Mode: "concurrent", NAct: 1, Gran: "code", QuotaFull: -1, FailAt: -1, Persistent: true},
+		{Mode: "concurrent", NAct: 2, Gran: "code", QuotaFull: -1, FailAt: -1, Persistent: true},
+		{Mode: "concurrent", NAct: 2, Gran: "code", QuotaFull: -1, FailAt: -1, Persistent: true, Cluster: true},
+		{Mode: "concurrent", NAct: 1, Revoke: true, Gran: "code", QuotaFull: -1, FailAt: -1, Persistent: true},
+	} {
+		for k := 1; k <= 2; k++ {
+			job++
+			if !vkit.Mine(job) {
+				continue
+			}
+			c := base
+			c.PersFail = k
+			d := newDFS(nil, -1)
+			for {
+				o := runConcurrent(c, d.Choose)
+				cc := c
+				cc.Picks = d.Trace()
+				report(t, cc, o)
+				total++
+				if !d.Next() {
+					break
+				}
+			}
+		}
+	}
 	vkit.AddExtra("fault_enum_runs", int64(total))
 }
 
@@ -978,6 +1033,10 @@ func TestRandomSchedules(t *testing.T) {
 		c.Revoke2 = c.Revoke && rapid.IntRange(0, 3).Draw(t, "revokeTwice") == 0
 		c.Generate = rapid.IntRange(0, 2).Draw(t, "generateAnotherCode") == 0
 		c.Persistent = rapid.IntRange(0, 3).Draw(t, "persistentTier") == 0
+		c.StaleClaim = rapid.IntRange(0, 4).Draw(t, "staleClaimMarker") == 0
+		if c.Persistent && rapid.IntRange(0, 2).Draw(t, "persistentWriteFault") == 0 {
+			c.FailAt, c.PersFail = -1, rapid.IntRange(1, 3).Draw(t, "persFail")
+		}
 		c.CodeTTL = rapid.SampledFrom(append([]int{0, 0}, codeTTLs...)).Draw(t, "codeTTLSeconds")
 		if rapid.IntRange(0, 3).Draw(t, "tierFaultInsteadOfFacadeFault") == 0 {
 			c.FailAt, c.TierFail = -1, rapid.IntRange(1, 8).Draw(t, "tierFail")
@@ -987,6 +1046,9 @@ func TestRandomSchedules(t *testing.T) {
 		}
 		// (not combined with a swallowed cache-write failure on a persistent world: the roll-back's read then misses
 		// the cache and hybrid's asynchronous write-back can resurrect the deleted record - C14's finding)
+		if c.PersFail > 0 {
+			c.TierFail = 0
+		}
 		if rapid.IntRange(0, 13).Draw(t, "expiresInFlight") == 0 && !(c.Persistent && c.TierFail > 0) {
 			c.ExpirePoint = rapid.SampledFrom(expirePoints).Draw(t, "expirePoint")
 		}
@@ -1010,6 +1072,10 @@ func TestReplay(t *testing.T) {
 		for i := 0; i < 3; i++ {
 			runSequential(t, c)
 		}
+		return
+	}
+	if c.Mode == "restart" {
+		runRestart(t, c, t.TempDir())
 		return
 	}
 	if c.Mode == "contention" {
